@@ -174,7 +174,7 @@ class HtmlRenderer(BaseRenderer):
             head_rendered = ''
         body_template = '<tbody>\n{inner}</tbody>\n'
         body_inner = self.render_inner(token)
-        body_rendered = body_template.format(inner=body_inner)
+        body_rendered = body_template.format(inner=body_inner) if body_inner else ''
         return template.format(inner=head_rendered + body_rendered)
 
     def render_table_row(self, token: block_token.TableRow, is_header=False) -> str:
